@@ -83,16 +83,34 @@ def run(ctx, pid):
     ctx.sample({'real_pool_scenario': data[0]['scenario'],
                 'observed': {k: v for k, v in data[0].items() if k != 'scenario'}}, limit=10)
     _, verdicts = monitor.check('PoolObs', data, invariants=forms, constants=consts)
-    seen = set()
+    # reproducibility rule for sampled real executions (see checks/shutdown.py)
+    pending = {}
     for v in verdicts:
         d = data[v['trace']]
-        key = (v['name'], json.dumps(d['scenario'], sort_keys=True))
-        if key in seen:
-            continue
-        seen.add(key)
-        ctx.violation('real pool, %r: %s falsified (%r)' % (
-            d['scenario'], v['name'], {k: d[k] for k in d if k != 'scenario'}),
-            'observed:poolreal:%s:%s' % (v['name'], d['scenario']['kind']), replay=d)
+        pending.setdefault(json.dumps(d['scenario'], sort_keys=True), (d, set()))[1].add(v['name'])
+    unconfirmed = []
+    for key, (d, names) in pending.items():
+        still = set(names)
+        for attempt in range(2):
+            rc2, again, _ = sandbox.run_driver('harness.poolreal_main', [ctx.tier, json.dumps([d['scenario']])],
+                                               timeout=400 * scale, env={'VERIF_TIME_SCALE': str(scale)})
+            if rc2 != 0 or not again:
+                break
+            _, v2 = monitor.check('PoolObs', again, invariants=sorted(still), constants=consts)
+            still &= set(x['name'] for x in v2)
+            if not still:
+                break
+        for name in sorted(names):
+            if name in still:
+                ctx.violation('real pool, %r: %s falsified, 3 runs out of 3 (%r)' % (
+                    d['scenario'], name, {k: d[k] for k in d if k != 'scenario'}),
+                    'observed:poolreal:%s:%s' % (name, d['scenario']['kind']), replay=d)
+            else:
+                unconfirmed.append({'scenario': d['scenario'], 'formula': name,
+                                    'observed': {k: d[k] for k in d if k != 'scenario'}})
+    if unconfirmed:
+        ctx.note('unreproducible_observations', unconfirmed)
+        ctx.log('%d observation(s) falsified a formula once but not again: recorded, not reported' % len(unconfirmed))
     for tol, fs in KNOWN.get(pid, ()):
         c2 = dict(consts, **{tol: 'FALSE'})
         _, verdicts = monitor.check('PoolObs', data, invariants=[f for f in fs if f in forms], constants=c2)
